@@ -12,7 +12,10 @@ import vlib, build, bpbind, gen, sqfsimg, fidelity
 from vlib import VERIF, Evidence, Reporter, run_tlc, write_cfg, scratch, SEED, sh
 
 PID = "C01"
-INVS = ["NeverHangs", "TreeClosed", "HardLinksShare", "GlobLinksFaithful"]
+INVS = ["NeverHangs", "TreeClosed", "HardLinksShare", "GlobLinksFaithful", "OwnersFollowOptions"]
+OPT1 = '{[defUid |-> 0, forceUid |-> 0 - 1]}'
+OPT4 = '{[defUid |-> 0, forceUid |-> 0 - 1], [defUid |-> 3, forceUid |-> 0 - 1], [defUid |-> 0, forceUid |-> 5], [defUid |-> 3, forceUid |-> 5]}'
+
 PNAME = lambda p: "/" + "/".join(p)
 
 
@@ -55,12 +58,14 @@ def check_program(tools, work, i, rec):
     # the pack file is named in the three ways the tool resolves relative locations: absolute path, a bare name in the
     # current directory (no pack dir can be derived), and next to an explicit -D
     mode = i % 3
+    op = rec.get("opt") or {"defUid": 0, "forceUid": -1}
+    oargs = (["-d", "uid=%d" % op["defUid"]] if op["defUid"] else []) + (["-u", str(op["forceUid"])] if op["forceUid"] >= 0 else [])
     if mode == 0:
-        rc, o, e = sh([tools + "/gensquashfs", "-q", "-f", "-c", "gzip", "-F", pf, out], timeout=20)
+        rc, o, e = sh([tools + "/gensquashfs", "-q", "-f", "-c", "gzip"] + oargs + ["-F", pf, out], timeout=20)
     elif mode == 1:
-        rc, o, e = sh([tools + "/gensquashfs", "-q", "-f", "-c", "gzip", "-F", "pack.txt", out], timeout=20, cwd=d)
+        rc, o, e = sh([tools + "/gensquashfs", "-q", "-f", "-c", "gzip"] + oargs + ["-F", "pack.txt", out], timeout=20, cwd=d)
     else:
-        rc, o, e = sh([tools + "/gensquashfs", "-q", "-f", "-c", "gzip", "-D", d, "-F", pf, out], timeout=20)
+        rc, o, e = sh([tools + "/gensquashfs", "-q", "-f", "-c", "gzip"] + oargs + ["-D", d, "-F", pf, out], timeout=20)
     m = rec["m"]
     bad = None
     if rc == 124:
@@ -83,8 +88,11 @@ def check_program(tools, work, i, rec):
                 bad = ("pack-undecodable", "image cannot be decoded: %s" % ex)
             if t is not None:
                 exp = {"/".join(n["p"]).encode(): n for n in m["tree"] if n["p"]}
+                rootn = [n for n in m["tree"] if not n["p"]]
+                if rootn and t[b""]["uid"] != rootn[0]["uid"]:
+                    bad = ("pack-tree-differs", "the root inode is owned by %d, specification %d (options %s)" % (t[b""]["uid"], rootn[0]["uid"], oargs))
                 kind = {"pipe": "fifo"}
-                for p, n in exp.items():
+                for p, n in (exp.items() if not bad else []):
                     g = t.get(p)
                     if g is None or g["kind"] != kind.get(n["kind"], n["kind"]) or (g["uid"] != n["uid"] and n["kind"] != "link"):
                         # implicit directories have uid 0, explicit ones the given uid: n.uid covers both
@@ -344,7 +352,7 @@ def run(tier):
     ML = 2 if tier == "quick" else 3
     write_cfg(cfg, spec="Spec", constants={"MaxLen": ML, "Emit": False, "LinkFlagsDropped": False, "CycleCheckStartOnly": False,
                                             "GlobLinkPrefixDropped": False},
-              invariants=INVS, deadlock=False)
+              defs={"OptSet": OPT4 if ML == 2 else OPT1}, invariants=INVS, deadlock=False)
     r = run_tlc("FsTree", cfg, workers=16, timeout=3000, heap="16g")
     ev.tlc(r, "FsTree programs<=%d" % ML)
     if not r["ok"]:
@@ -356,7 +364,7 @@ def run(tier):
                                  ("GlobLinkPrefixDropped(pre-fix tree)", False, False, True, 2)]:
         write_cfg(cfg, spec="Spec", constants={"MaxLen": ml, "Emit": False, "LinkFlagsDropped": lf, "CycleCheckStartOnly": cy,
                                                 "GlobLinkPrefixDropped": gl},
-                  invariants=INVS, deadlock=False)
+                  defs={"OptSet": OPT1}, invariants=INVS, deadlock=False)
         r = run_tlc("FsTree", cfg, workers=16, timeout=1800, heap="16g")
         ev.tlc(r, "dev " + name)
         devres[name] = bool(r["violated"])
@@ -370,7 +378,7 @@ def run(tier):
     # ---- R: emitted programs on the real tool --------------------------------------------------------
     write_cfg(cfg, spec="Spec", constants={"MaxLen": 2, "Emit": True, "LinkFlagsDropped": False, "CycleCheckStartOnly": False,
                                             "GlobLinkPrefixDropped": False},
-              invariants=["EmitOK"], deadlock=False)
+              defs={"OptSet": OPT4}, invariants=["EmitOK"], deadlock=False)
     r = run_tlc("FsTree", cfg, workers=4, timeout=1800, heap="8g")
     ev.tlc(r, "FsTree emit")
     recs = bpbind.parse_emitted(r["out"])
